@@ -58,3 +58,20 @@ class _Finder(importlib.abc.MetaPathFinder, importlib.abc.Loader):
 
 if not any(isinstance(f, _Finder) for f in sys.meta_path):
     sys.meta_path.insert(0, _Finder())
+
+
+# ---- a package that is already imported and resolves unknown attributes lazily (scipy / numpy style) ----------------
+import types as _types
+
+if "verif_canary_lazy" not in sys.modules:
+    _lazy = _types.ModuleType("verif_canary_lazy")
+    _lazy.__path__ = []          # a package
+
+    def _lazy_getattr(name):
+        if name.startswith("__"):
+            raise AttributeError(name)
+        LEDGER.append(("lazy-import", "verif_canary_lazy." + name))
+        raise AttributeError(name)
+
+    _lazy.__getattr__ = _lazy_getattr
+    sys.modules["verif_canary_lazy"] = _lazy
